@@ -25,6 +25,7 @@ pub fn run(args: &Args) -> serde_json::Value {
     let mut n_cut_below_nvars = 0;
     let mut n_shrunk = 0usize;
     let mut n_wf_checks = 0usize;
+    let mut n_extended = 0usize;
     for ci in 0..n_cases {
         let mut spec = random_ising(&mut rng, 5, true);
         spec.hb = false; // the trajectory clause is for the default update pipeline
@@ -164,6 +165,35 @@ pub fn run(args: &Args) -> serde_json::Value {
                 oracle_failures.push(json!({"what": format!("spin-state trajectory diverges at step {} after conversion (h = 0)", s), "context": ctx}));
             }
         }
+        // The converted sampler is an ordinary generic sampler: further interactions may be added to it. The container
+        // it inherited was sized for the Ising bonds; the per-bond counts must keep agreeing with a scan (C11) and no
+        // update may panic (C15: the converted sampler is usable like any other).
+        if ci % 4 == 1 && lock.is_ok() {
+            let nb_before = 2 * spec.nvars + spec.edges.len() + 1; // generous upper bound on the bond indices in use
+            let ext = catch_unwind(AssertUnwindSafe(|| {
+                let v0 = rng.below(spec.nvars as u64) as usize;
+                q.make_diagonal_interaction(vec![1.5, 0.75], vec![v0]).unwrap();
+                let mut bad = None;
+                for s in 0..6 {
+                    q.timestep(lock_beta.max(1.0));
+                    let (slq, _, _) = snapshot_qmc(&q);
+                    for b in 0..=nb_before {
+                        let scan = slq.iter().flatten().filter(|o| o.bond == b).count();
+                        let got = q.get_bond_count(b);
+                        if got != scan && bad.is_none() {
+                            bad = Some(format!("after adding an interaction to the converted sampler and {} time steps: get_bond_count({}) = {} but a scan finds {}", s + 1, b, got, scan));
+                        }
+                    }
+                }
+                bad
+            }));
+            n_extended += 1;
+            match ext {
+                Ok(None) => {}
+                Ok(Some(w)) => oracle_failures.push(json!({"prop": "C11,C15", "what": w, "context": ctx})),
+                Err(_) => oracle_failures.push(json!({"prop": "C11,C15", "what": "the converted sampler panicked after one more interaction was added to it (make_diagonal_interaction on an existing spin, then time steps)", "context": ctx})),
+            }
+        }
         distinct.insert(format!("{:?}{:?}{}", sl0, st0, c0));
         coq.push(format!("C15.Conv {} {}%nat {} {} false {}%nat {} {} {} {} {} {}", spec.coq(), c0, cq::bools(&st0), slots_coq(&sl0),
             c1, cq::bools(&st1), slots_coq(&sl1), cq::q(q.get_offset()),
@@ -180,11 +210,11 @@ pub fn run(args: &Args) -> serde_json::Value {
         }
     }
     // world-line failures first, so that a truncated list still shows them
-    oracle_failures.sort_by_key(|f| match f["prop"].as_str() { Some("C15") => 2, Some("C07,C15") => 1, _ => 0 });
+    oracle_failures.sort_by_key(|f| match f["prop"].as_str() { Some("C15") => 2, Some("C07,C15") | Some("C11,C15") => 1, _ => 0 });
     crate::cap_failures(&mut oracle_failures, 25);
     let files = crate::write_shards(&args.out, "C15", "C15", &coq, 100);
     json!({"files": files, "evaluations": coq.len(), "distinct_nontrivial": distinct.len(), "with_longitudinal_field": n_h,
-        "converted_after_steps": n_after_steps, "converted_after_count_shrank": n_shrunk, "world_line_checks_after_conversion": n_wf_checks, "converted_with_cutoff_below_nvars": n_cut_below_nvars, "lockstep_steps": n_lockstep,
+        "converted_after_steps": n_after_steps, "converted_after_count_shrank": n_shrunk, "world_line_checks_after_conversion": n_wf_checks, "converted_with_cutoff_below_nvars": n_cut_below_nvars, "lockstep_steps": n_lockstep, "converted_then_extended_by_an_interaction": n_extended,
         "oracle_failures": oracle_failures, "samples": samples,
         "rule": "random Ising samplers (2-5 spins, multi-edges, both signs, h = 0 / +-, initial cutoffs 1..8), converted before any step or after 1..8 steps; every matrix element of every converted bond, offset, flags, carried-over state/string/cutoff compared with the model; both samplers then advanced in lock-step from the same RNG state"})
 }
